@@ -224,6 +224,9 @@ func (fx *FnExec) doCall(st *State, instr ssa.Instruction, c *ssa.CallCommon) []
 			}
 		}
 		for _, cl := range ct.Ensures {
+			if calleeInternalClause(cl.Expr) {
+				continue // speaks about the callee's own calls / locals: checked there, says nothing a caller could use
+			}
 			fx.sc.Assume(Implies(st.R, env.EvalBool(cl.Expr)))
 		}
 		for _, cl := range ct.Assumed {
@@ -427,7 +430,12 @@ func (fx *FnExec) builtin(st *State, b *ssa.Builtin, c *ssa.CallCommon, instr ss
 	case "print", "println":
 		return nil
 	case "recover":
-		// on a normal (non-panicking) path recover() returns nil
+		// on a normal (non-panicking) path recover() returns nil. A function whose own contract speaks about
+		// resultof(recover) - a deferred recovery handler - is checked for BOTH cases: what recover() returns is left
+		// open (nil: the enclosing function returned normally; non-nil: it is panicking).
+		if fx.inlineParent == nil && fx.contract != nil && contractSpeaksOfRecover(fx.contract) {
+			return []Term{fx.sc.Fresh("recovered", fx.tc.SortOf(c.Signature().Results().At(0).Type()))}
+		}
 		return []Term{fx.tc.Zero(c.Signature().Results().At(0).Type())}
 	case "ssa:wrapnilchk":
 		return []Term{fx.val(c.Args[0])}
@@ -881,4 +889,57 @@ func closuresOfValue(v ssa.Value) []*ssa.MakeClosure {
 		}
 	}
 	return out
+}
+
+// calleeInternalClause: a postcondition written with resultof / local / deferred / received refers to what happened
+// inside the callee; it is an obligation on the callee and is not handed to callers.
+func calleeInternalClause(e SpecExpr) bool {
+	for _, n := range []string{"resultof", "local", "deferred", "received"} {
+		if mentionsCall(e, n) {
+			return true
+		}
+	}
+	return false
+}
+
+func contractSpeaksOfRecover(ct *Contract) bool {
+	var has func(e SpecExpr) bool
+	has = func(e SpecExpr) bool {
+		switch x := e.(type) {
+		case SCall:
+			if x.Fun == "resultof" && len(x.Args) > 0 {
+				if id, ok := x.Args[0].(SIdent); ok && id.Name == "recover" {
+					return true
+				}
+			}
+			for _, a := range x.Args {
+				if has(a) {
+					return true
+				}
+			}
+		case SUnary:
+			return has(x.X)
+		case SBinary:
+			return has(x.X) || has(x.Y)
+		case SCond:
+			return has(x.C) || has(x.A) || has(x.B)
+		case SSel:
+			return has(x.X)
+		case SIndex:
+			return has(x.X) || has(x.I)
+		case SOld:
+			return has(x.X)
+		case SQuant:
+			return has(x.Body)
+		case SLet:
+			return has(x.Val) || has(x.Body)
+		}
+		return false
+	}
+	for _, cl := range ct.Ensures {
+		if has(cl.Expr) {
+			return true
+		}
+	}
+	return false
 }
